@@ -239,6 +239,8 @@ def obligations(tier, seed):
         for thin in ((True,) if quick else (True, False)):
             for fn, label in (("h_lazy", "errors"), ("h_lazy_decode", "decode")):
               for k0 in (range(len(KS)) if n >= 2 else (None,)):
+                if k0 == 0 and fn == "h_lazy_decode":
+                    continue        # the first item lacks its key: entirely inside the recorded finding's region
                 out.append({"name": "%s/lazy1/n%d/%s%s" % (label, n, "thin" if thin else "full", "" if k0 is None else "/k0=%d" % k0), "fn": fn, "pre": "pre_doc",
                             "args": [a for a in args if k0 is None or a[0] != "k0"],
                             "config": {"n": n, "lazy": 1, "thin": thin, "lims": {"r1": 2, "c1": 3, "c0": 3} if (quick and n == 2) else {},
@@ -249,6 +251,6 @@ def obligations(tier, seed):
         for j in range(n):
             args2 += [["c%d" % j, "int"], ["x%d" % j, "int"]]
         out.append({"name": "iter/lazy1/n%d" % n, "fn": "h_iter", "pre": "pre_doc", "args": args2 + [["k0", "int"], ["r0", "int"]][:0],
-                    "config": {"n": n, "lazy": 1, "thin": True, "fixed": True}, "timeout": 400, "twin_timeout": 40,
+                    "config": {"n": n, "lazy": 1, "thin": True}, "timeout": 400, "twin_timeout": 40,
                     "bound": "%d items, children %r, optional inner xmlns declaration" % (n, CH)})
     return out
